@@ -91,6 +91,12 @@ class HostPool(object):
                     yield from self._condition.wait()
 
             self.busy.add(connection)
+        except BaseException:
+            # This waiter may already have been chosen by notify() when it
+            # was cancelled.  Pass the wake-up on, otherwise the next waiter
+            # sleeps although a connection is free.
+            self._condition.notify()
+            raise
         finally:
             # A cancelled wait() returns with the lock re-acquired.
             self._condition.release()
